@@ -219,6 +219,9 @@ var cliStreamCommands = []struct {
 	{"C06", []string{"revcomp", "zz", "b", "c"}}, // a name no alignment has, before names they have
 	{"C06", []string{"revcomp", "c", "zz", "a"}},
 	{"C13", []string{"dedup", "-l", "@aux"}},
+	{"C11", []string{"reformat", "phylip"}},
+	{"C11", []string{"reformat", "phylip", "--output-strict"}},
+	{"C11", []string{"reformat", "nexus"}},
 	{"C05", []string{"translate", "--phase", "1"}},
 	{"C14", []string{"consensus"}},
 	{"C14", []string{"consensus", "--ignore-gaps"}},
